@@ -47,7 +47,12 @@ P_CURRENT_VERSION, P_MAX_PACKET_SIZE = 0x01, 0x0B
 
 HID_CMD_OUT, HID_DATA_OUT, HID_CMD_IN, HID_DATA_IN = 1, 2, 3, 4
 
-LINK_KINDS_SERIAL = ("bitflip", "drop", "dup", "truncate")
+LINK_KINDS_SERIAL = ("bitflip", "drop", "dup", "truncate", "notready")
+# "notready": from the unit that contains `pos` on, the device answers every read with 0x00 (the protocol's "not ready yet" byte at
+# a frame-start position) and never sends the unit.  The host's allowance for such bytes is a *time* (the device's timeout), so for
+# this one kind the link owns a wall clock: it keeps answering for at most FLOOD_BOUND_S seconds per host write; a host still
+# reading after that is recorded as unbounded (flood_exceeded) and is then let go by a time-out.
+FLOOD_BOUND_S = 10.0
 DEVICE_KINDS = ("nak", "abort", "errstatus", "wrongtag")
 LINK_KINDS_HID = ("zerolen", "missing", "short", "wrongid", "truncate")
 
@@ -217,6 +222,10 @@ class SerialLink(_Link):
         super().__init__(plan, read_budget)
         self.queue = bytearray()
         self.flush_on_write = flush_on_write
+        self.flooding = False
+        self.flood_start: Optional[float] = None
+        self.flood_reads = 0
+        self.flood_exceeded = False
 
     def emit(self, raw: bytes, meta: dict) -> None:
         """Emit a unit of the fault-free behaviour (link-level faults are applied here)."""
@@ -234,10 +243,13 @@ class SerialLink(_Link):
             out = raw[:i] + raw[i + 1 :]
         elif kind == "dup":
             out = raw[: i + 1] + raw[i : i + 1] + raw[i + 1 :]
+        elif kind == "notready":  # the unit never arrives; the device says "not ready" for ever
+            out = b""
+            self.flooding = True
         else:  # truncate: byte i and everything after it never arrives
             out = raw[:i]
         self._deliver(out)
-        if kind == "truncate":
+        if kind in ("truncate", "notready"):
             self.silent = True
 
     def emit_after_fault(self, raw: bytes, role: str = "") -> None:
@@ -252,6 +264,18 @@ class SerialLink(_Link):
 
     # host side ---------------------------------------------------------
     def host_read(self, n: int) -> bytes:
+        if self.flooding and not self.queue and n > 0:
+            import time  # noqa: PLC0415
+
+            now = time.monotonic()
+            if self.flood_start is None:
+                self.flood_start = now
+            self.flood_reads += 1
+            if now - self.flood_start > FLOOD_BOUND_S:
+                self.flood_exceeded = True
+                self.flood_start = None
+                raise LinkTimeout()
+            return bytes(n)
         self.count_read()
         if not self.queue or n <= 0:
             raise LinkTimeout()
@@ -671,6 +695,8 @@ class MbootSerialDevice(_Transport):
     # -- host writes
     def host_write(self, data: bytes) -> None:
         self.link.writes += 1
+        if getattr(self.link, "flooding", False):
+            self.link.flood_start = None  # a new exchange: the allowance starts again
         self.link.host_flush_input()
         self.rx += data
         while self._parse_one():
